@@ -146,6 +146,30 @@ def family(rng, kind):
 
 FAMILIES = ["rename_into_parent", "rename_into_child", "full_path_rename", "delete_recreate", "rename_chain"]
 
+def gen_wide_repo(rng):
+    """a history with more files and more authors than a table page (18-27 of each): one file created per commit,
+    then appends; materialised as a REAL repository by the harness and read through `coca git -b -t -o` (no -f):
+    every existing file and every author must be in the tables"""
+    nfiles, nauthors = rng.randint(17, 27), rng.randint(17, 27)
+    authors = ["Dev %02d" % i for i in range(nauthors)]
+    commits, files = [], []
+    day = 0
+    for i in range(max(nfiles, nauthors) + rng.randint(0, 5)):
+        day += rng.choice([1, 1, 2, 9])
+        date = "20%02d-%02d-%02d" % (19 + day // 336, 1 + (day // 28) % 12, 1 + day % 28)
+        author = authors[i % nauthors]
+        if i < nfiles:
+            p = "w%d/file%02d.txt" % (i % 3, i); files.append(p)
+            ch = [rng.randint(1, 9), 0, p, p, "0", p, "create"]
+        else:
+            p = rng.choice(files)
+            ch = [rng.randint(1, 5), 0, p, p, "0", p, ""]
+        ty = rng.choice(TYPES)
+        commits.append(["%07x" % (0xabc0000 + i), author, date, "%s: step %d" % (ty, i), ty, [ch]])
+    return commits
+
+HARNESS_ENV = {"COCA_BIN": __import__("os").path.join(vlib.ROOT, "harness", "bin", "coca")}
+
 def canon(out):
     if not isinstance(out, list) or len(out) != 5:
         return out
@@ -174,6 +198,9 @@ def cases(seed, tier):
     for i in range(n_random):
         rng = vlib.rng_for(seed, ID, "random", i)
         out.append({"name": "random-%d" % i, "tags": ["random"], "input": gen_history(rng)})
+    for j in range(6 if tier == "quick" else 60):
+        rng = vlib.rng_for(seed, ID, "wide_repo", j)
+        out.append({"name": "wide_repo-%d" % j, "tags": ["wide_repo"], "input": gen_wide_repo(rng), "harness_op": "C15.cli"})
     # which cases satisfy the (executable) hypothesis of the refinement theorem
     wf = vlib.run_driver([("C15.wf", c["input"]) for c in out])
     for c, w in zip(out, wf):
